@@ -123,10 +123,10 @@ def norm_cmp(e):
     if t[0] == 'call' and out in ('true', 'false') and len(t[2]) == 2:
         c = t[1]
         m = None
-        for nm, op in (('PartialEq::ne', 'Ne'), ('PartialEq::eq', 'Eq'), ('PartialEq>::ne', 'Ne'), ('PartialEq>::eq', 'Eq'),
-                       ('PartialOrd::lt', 'Lt'), ('PartialOrd::le', 'Le'), ('PartialOrd::gt', 'Gt'), ('PartialOrd::ge', 'Ge')):
-            if c.endswith(nm) or c.endswith(nm.replace('::', '>::')):
-                m = op
+        if 'cmp' in c or 'PartialEq' in c or 'PartialOrd' in c:
+            for nm, op in (('::ne', 'Ne'), ('::eq', 'Eq'), ('::lt', 'Lt'), ('::le', 'Le'), ('::gt', 'Gt'), ('::ge', 'Ge')):
+                if c.endswith(nm):
+                    m = op
         if m:
             holds = (out == 'true') != neg
             if not holds:
